@@ -14,7 +14,7 @@ func OpenString(L *LState) int {
 	//_, ok := L.G.builtinMts[int(LTString)]
 	//if !ok {
 	mod = L.RegisterModule(StringLibName, strFuncs).(*LTable)
-	gmatch := L.NewClosure(strGmatch, L.NewFunction(strGmatchIter))
+	gmatch := L.NewFunction(strGmatch)
 	mod.RawSetString("gmatch", gmatch)
 	mod.RawSetString("gfind", gmatch)
 	mod.RawSetString("__index", mod)
@@ -339,15 +339,17 @@ type strMatchData struct {
 }
 
 func strGmatchIter(L *LState) int {
-	md := L.CheckUserData(1).Value.(*strMatchData)
+	// the state is an upvalue of the iterator (as in lstrlib): it works with
+	// whatever arguments the generic for, or a direct call, passes
+	md := L.CheckUserData(UpvalueIndex(1)).Value.(*strMatchData)
 	str := md.str
 	matches := md.matches
 	idx := md.pos
-	md.pos += 1
-	if idx == len(matches) {
+	if idx >= len(matches) {
+		// exhausted: keeps answering nil
 		return 0
 	}
-	L.Push(L.Get(1))
+	md.pos += 1
 	match := matches[idx]
 	if match.CaptureLength() == 2 {
 		L.Push(LString(str[match.Capture(0):match.Capture(1)]))
@@ -376,11 +378,10 @@ func strGmatch(L *LState) int {
 	if err != nil {
 		L.RaiseError(err.Error())
 	}
-	L.Push(L.Get(UpvalueIndex(1)))
 	ud := L.NewUserData()
 	ud.Value = &strMatchData{str, 0, mds}
-	L.Push(ud)
-	return 2
+	L.Push(L.NewClosure(strGmatchIter, ud))
+	return 1
 }
 
 func strLen(L *LState) int {
